@@ -2,6 +2,7 @@
 from __future__ import annotations
 
 import io
+import re
 import xml.etree.ElementTree as ET
 
 from hypothesis import strategies as st
@@ -125,10 +126,7 @@ def _toklen(text, t):
 def check_case(case):
     H.setup_path()
     text = case["text"]
-    if case.get("by_construction"):
-        verdict = (X.MUST_REJECT, "never closed (prefix cut before the final end tag)")
-    else:
-        verdict = X.classify(text)
+    verdict = verdict_of(text, case.get("by_construction"))
     if verdict[0] != X.MUST_REJECT:
         return []
     acc, root = library_accepts(text)
@@ -139,6 +137,18 @@ def check_case(case):
     elif case.get("file") and library_accepts_file(text):
         out.append((f"accepted-by-OFXTree/{rc}", f"op={case.get('op')} {text!r}"))
     return out
+
+
+_PARTIAL = re.compile(r"<[^>]*$")
+
+
+def verdict_of(text, truncated=False):
+    """Truncations may end inside a tag: the partial tag is dropped before classifying (it cannot repair
+    the nesting).  A cut that leaves only dataless, childless open elements is ambiguous (an empty element
+    may omit its end tag - the library's own writer does that) and is not asserted."""
+    if truncated:
+        return X.classify(_PARTIAL.sub("", text))
+    return X.classify(text)
 
 
 def agg_levels(plain):
@@ -153,10 +163,7 @@ def run_doc(s, text, plain, byte_level, sample_file=False):
     first_tag_end = text.index(">") + 1
     n = 0
     for op, m, byc in mutants(text, byte_level):
-        if byc:
-            verdict = X.MUST_REJECT
-        else:
-            verdict = X.classify(m)[0]
+        verdict = verdict_of(m, byc)[0]
         s.label(f"{op}:{verdict}")
         if verdict != X.MUST_REJECT:
             s.evaluations += 1
